@@ -102,13 +102,30 @@ func consumePrefix(s, prefix string) (string, bool) {
 	return s, false
 }
 
+// asciiLower lower-cases the ASCII letters of s. strings.ToLower also maps
+// some non-ASCII letters to ASCII ones (U+0130 to 'i', U+212A to 'k').
+func asciiLower(s string) string {
+	for i := 0; i < len(s); i++ {
+		if c := s[i]; 'A' <= c && c <= 'Z' {
+			b := []byte(s)
+			for ; i < len(b); i++ {
+				if c := b[i]; 'A' <= c && c <= 'Z' {
+					b[i] = c + 'a' - 'A'
+				}
+			}
+			return string(b)
+		}
+	}
+	return s
+}
+
 func (d *Decimal) setString(c *Context, s string) (Condition, error) {
 	orig := s
 	s, d.Negative = consumePrefix(s, "-")
 	if !d.Negative {
 		s, _ = consumePrefix(s, "+")
 	}
-	s = strings.ToLower(s)
+	s = asciiLower(s)
 	d.Exponent = 0
 	d.Coeff.SetInt64(0)
 	// Until there are no parse errors, leave as NaN.
